@@ -9,6 +9,11 @@ python3 tools/instr.py bin/overlay || exit 1
 rc=0
 for d in mc/cmd/*/; do
   n=$(basename $d)
+  [ $n = c33 ] && { mc/cmd/c33/build.sh || rc=1; continue; }
   go1.26.8 build -overlay bin/overlay/overlay.json -o bin/$n ./mc/cmd/$n || rc=1
 done
+# C36 is built with the race detector (separate std build, warmed here)
+go1.26.8 build -race -overlay bin/overlay/overlay.json -o bin/racex ./mc/cmd/racex || rc=1
+# C35 builds an in-package test binary of tools/httpserver at check time; warm it
+./bin/c35 C35 quick build-only >/dev/null 2>&1 || true
 exit $rc
